@@ -319,7 +319,9 @@ class GcodeParser(CommonMixin):  # pylint: disable=too-many-instance-attributes
 
         if (self._checksum is not None):
             # Verify the checksum matches our computation
-            command = self.leadingWhitespace + self.text
+            # Leading whitespace is not covered by the checksum (stringify doesn't include it
+            # either, and the firmware skips leading blanks before checking a line)
+            command = self.text
             computedChecksum = self.computeChecksum(command)
 
             if (self._checksum != computedChecksum):
